@@ -5,6 +5,7 @@ cd "$(dirname "$(readlink -f "$0")")/.." || exit 2
 export BUDGET=${1:-60}
 for d in seeded/*/; do
   id=$(basename $d); [ -f $d/patch.diff ] || continue
+  python3 -c "import json,sys;sys.exit(1 if json.load(open('$d/meta.json')).get('obsolete') else 0)" 2>/dev/null || { echo "SKIP seed=$id obsolete (see meta.json)"; continue; }
   prop=$(python3 -c "import json;print(json.load(open('$d/meta.json'))['breaks'])" 2>/dev/null || echo ${id%%-*})
   tools/seedtest.sh $id $d/patch.diff $prop 2>&1 | grep "RESULT\|does not apply\|FAILS"
 done
